@@ -277,6 +277,8 @@ def decConnect (v : Version) (body : Bytes) : Option ConnectView :=
             else match decStr r2 with
               | none => none
               | some (cid, r3) =>
+                -- [MQTT-3.1.3-7] (3.1.1): a zero-byte client identifier requires CleanSession = 1
+                if v == .v311 && cid.isEmpty && !clean then none else
                 let willPart : Option (Option Will × Bytes) :=
                   if willFlag then
                     let wp : Option (List Property × Bytes) :=
